@@ -69,6 +69,11 @@ type cfgData struct {
 	// (two devices behind one proxy): with realConn they share ONE pooled
 	// connection; the dial always succeeds
 	sharedAddr bool
+	// metaTimeout: the receive time-out is configured per target, in the
+	// target's own Meta map ("receive_timeout"), and every Add of the target -
+	// the first and the re-Add after a Remove - passes the SAME *tpb.Target
+	// object, as a caller holding on to its configuration does
+	metaTimeout bool
 }
 
 type harness struct{}
@@ -159,6 +164,15 @@ func configsBase(tier string) []xplore.Config {
 				out = append(out, xplore.Config{Name: fmt.Sprintf("t1=%s t2=%s ctl=%v", scriptName(s1), scriptName(s2), c), Bound: bound,
 					Data: cfgData{scripts: map[string][]session{"t1": s1, "t2": s2}, targets: []string{"t1", "t2"}, ctls: c, recvTimeout: true, rounds: 4}})
 			}
+		}
+	}
+	// the receive time-out configured in the target's own Meta map, the same
+	// target object added again after a Remove: every incarnation's silent
+	// session is ended by the time-out
+	for _, sc := range [][]session{{{msgs: "u", end: "silence"}, {msgs: "u", end: "silence"}, {msgs: "u", end: "silence"}}, {{msgs: "u", end: "err"}, {msgs: "", end: "silence"}, {msgs: "u", end: "silence"}}} {
+		for _, c := range [][]ctl{{{"remove", 1}, {"add", 2}}, {{"remove", 0}, {"add", 1}}, nil} {
+			out = append(out, xplore.Config{Name: fmt.Sprintf("t1=%s ctl=%v receive time-out in the target's Meta, same target object re-added", scriptName(sc), c), Bound: bound,
+				Data: cfgData{scripts: map[string][]session{"t1": sc}, targets: []string{"t1"}, ctls: c, recvTimeout: true, metaTimeout: true, rounds: 6}})
 		}
 	}
 	// a dial that never answers (it ends only with its context), through the
@@ -385,7 +399,7 @@ func (harness) Run(cfg xplore.Config, ch vrt.Chooser, trace bool) (xplore.Outcom
 			}
 			c.ConnectionManager = cm
 		}
-		if d.recvTimeout {
+		if d.recvTimeout && !d.metaTimeout {
 			c.ReceiveTimeout = time.Hour
 		}
 		m, err := manager.NewManager(c)
@@ -395,13 +409,27 @@ func (harness) Run(cfg xplore.Config, ch vrt.Chooser, trace bool) (xplore.Outcom
 		sr := &gpb.SubscribeRequest{Request: &gpb.SubscribeRequest_Subscribe{Subscribe: &gpb.SubscriptionList{}}}
 		managed := map[string]bool{}
 		raceAdded := false
+		tgtOf := map[string]*tpb.Target{}
+		targetOf := func(t string) *tpb.Target {
+			if !d.metaTimeout {
+				return &tpb.Target{Addresses: []string{t}}
+			}
+			if tgtOf[t] == nil {
+				tgtOf[t] = &tpb.Target{Addresses: []string{t}, Meta: map[string]string{"receive_timeout": "1h"}}
+			}
+			return tgtOf[t]
+		}
 		for _, t := range d.targets {
 			e.add(t, "added", -1, "") // logged first: the monitor goroutine may start before Add returns
 			addr := t
 			if d.sharedAddr {
 				addr = "shared"
 			}
-			if err := m.Add(t, &tpb.Target{Addresses: []string{addr}}, sr); err != nil {
+			tg := &tpb.Target{Addresses: []string{addr}}
+			if d.metaTimeout {
+				tg = targetOf(t)
+			}
+			if err := m.Add(t, tg, sr); err != nil {
 				viol("add-refused", "Add(%s): %v", t, err)
 			}
 			managed[t] = true
@@ -467,7 +495,7 @@ func (harness) Run(cfg xplore.Config, ch vrt.Chooser, trace bool) (xplore.Outcom
 					case "add":
 						// wait for the removal issued in the previous round
 						e.add("t1", "addinv", -1, "")
-						if err := m.Add("t1", &tpb.Target{Addresses: []string{"t1"}}, sr); err != nil {
+						if err := m.Add("t1", targetOf("t1"), sr); err != nil {
 							viol("add-refused", "re-Add(t1) after Remove: %v", err)
 							e.add("t1", "addfailed", -1, "")
 						} else {
